@@ -152,3 +152,32 @@ void h_substring_range(void) {
   REACH();
 }
 #endif
+
+/* C01 (errors contained): the byte-level UTF-8 primitives of (chibi io) - utf8-ref, utf8-next, utf8-prev, string-count-chars -
+ * take offsets from Scheme code.  For EVERY fixnum offset they either stay inside the bytevector / string or raise; CBMC's
+ * pointer checks on the dereferences inside port.c are the obligations (plus: the result is a value of the expected kind). */
+void h_utf8_prims(void) {
+  sexp ctx = setup();
+  long o1 = nondet_long(), o2 = nondet_long();
+  __CPROVER_assume(o1 >= SEXP_MIN_FIXNUM && o1 <= SEXP_MAX_FIXNUM && o2 >= SEXP_MIN_FIXNUM && o2 <= SEXP_MAX_FIXNUM);
+  sexp bv = (sexp)&bytes_obj;
+#if PRIM == 0
+  sexp r = sexp_utf8_ref(ctx, SEXP_FALSE, bv, sexp_make_fixnum(o1));
+  OBL(sexp_charp(r) || sexp_exceptionp(r), "utf8_ref.result: a character or an exception");
+  OBL(!sexp_charp(r) || (o1 >= 0 && o1 < STORE), "utf8_ref.range: a character only for an offset inside the bytevector");
+#elif PRIM == 1
+  sexp r = sexp_utf8_next(ctx, SEXP_FALSE, bv, sexp_make_fixnum(o1), sexp_make_fixnum(o2));
+  OBL(sexp_fixnump(r) || r == SEXP_FALSE || sexp_exceptionp(r), "utf8_next.result: an offset, #f or an exception");
+  OBL(!sexp_fixnump(r) || (sexp_unbox_fixnum(r) > o1 && sexp_unbox_fixnum(r) <= o2), "utf8_next.progress: the next offset lies in (offset, end]");
+#elif PRIM == 2
+  sexp r = sexp_utf8_prev(ctx, SEXP_FALSE, bv, sexp_make_fixnum(o1), sexp_make_fixnum(o2));
+  OBL(sexp_fixnump(r) || r == SEXP_FALSE || sexp_exceptionp(r), "utf8_prev.result: an offset, #f or an exception");
+  OBL(!sexp_fixnump(r) || (sexp_unbox_fixnum(r) < o1 && sexp_unbox_fixnum(r) >= o2), "utf8_prev.progress: the previous offset lies in [start, offset)");
+#else
+  int c = nondet_int(); __CPROVER_assume(c >= 0 && c <= 0x10FFFF && !(c >= 0xD800 && c <= 0xDFFF));
+  sexp r = sexp_string_count(ctx, SEXP_FALSE, sexp_make_character(c), (sexp)&str_obj, sexp_make_fixnum(o1), nondet_bool() ? SEXP_FALSE : sexp_make_fixnum(o2));
+  OBL(sexp_fixnump(r) || sexp_exceptionp(r), "string_count.result: a count or an exception");
+  OBL(!sexp_fixnump(r) || (sexp_unbox_fixnum(r) >= 0 && sexp_unbox_fixnum(r) <= SIZE), "string_count.bound: at most one occurrence per byte of the string");
+#endif
+  REACH();
+}
